@@ -1685,6 +1685,13 @@ class Interp:
             self.raise_builtin('AttributeError', "'%s' object has no attribute '%s'" % (self.typename(obj), name))
 
     def hasattr_(self, obj, name):
+        if isinstance(obj, ModuleObj) and obj.path is None and name not in obj.ns:
+            # a standard-library / external module known to this verifier only through a partial model: ask the real one
+            try:
+                import importlib as _il
+                return hasattr(_il.import_module(obj.name), name)
+            except Exception:
+                raise Unsupported('hasattr(%s, %r): module not available to the verifier' % (obj.name, name))
         try:
             return self.getattr_or_missing(obj, name) is not _MISSING
         except PyRaise:
